@@ -45,6 +45,11 @@ def split_top(s, sep=','):
                 j += 2 if s[j] == '\\' else 1
             cur.append(s[i:j + 1]); i = j + 1
             continue
+        if c == "'":                       # char literal (not a lifetime): brackets and commas inside do not count
+            mm = re.match(r"'(\\u\{[0-9a-fA-F]+\}|\\.|[^'\\])'", s[i:])
+            if mm:
+                cur.append(mm.group(0)); i += mm.end()
+                continue
         if c in '([{<':
             depth += 1
         elif c in ')]}':
@@ -451,7 +456,45 @@ def parse_term(s):
     raise MirSyntax('term? ' + s)
 
 
+def _mask_literals(c):
+    """same-length copy of c with the contents of string and char literals blanked (so that brackets inside them do not count)"""
+    out = list(c); n = len(c); i = 0
+    while i < n:
+        if c[i] == '"':
+            j = i + 1
+            while j < n and c[j] != '"':
+                j += 2 if c[j] == '\\' else 1
+            for k in range(i + 1, min(j, n)): out[k] = '_'
+            i = j + 1; continue
+        if c[i] == "'":
+            m = re.match(r"'(\\u\{[0-9a-fA-F]+\}|\\.|[^'\\])'", c[i:])
+            if m:
+                for k in range(i + 1, i + m.end() - 1): out[k] = '_'
+                i += m.end(); continue
+        i += 1
+    return ''.join(out)
+
+
 def _split_call(c):
+    return _split_call_at(c, _mask_literals(c))
+
+
+def _split_call_at(orig, masked):
+    d = 0; k = len(masked) - 1
+    if masked[k] != ')': raise MirSyntax('call? ' + orig)
+    while True:
+        if masked[k] == ')': d += 1
+        elif masked[k] == '(':
+            d -= 1
+            if d == 0: break
+        k -= 1
+    callee = orig[:k]
+    if callee.startswith(('move ', 'copy ')):
+        callee = ('indirect', parse_operand(callee))
+    return callee, [parse_operand(x) for x in split_top(orig[k + 1:-1])]
+
+
+def _split_call_masked(c):
     d = 0; k = len(c) - 1
     if c[k] != ')': raise MirSyntax('call? ' + c)
     while True:
